@@ -212,6 +212,8 @@ pub struct FaultCfg {
     pub budget: u32,
     /// weight of an immediate recv error vs 1000 (only transfer sockets: eps with a read timeout)
     pub recv_err_w: u32,
+    /// weight (vs 1000) of a failing send syscall on a transfer socket (transient ENOBUFS-like error)
+    pub send_err_w: u32,
     /// weights of scheduling delays when a task becomes runnable [0, 1us, 20us, 300us, 2ms]
     pub sched_w: [u32; 5],
     /// the delays those weights select (ns)
@@ -242,6 +244,7 @@ impl Default for FaultCfg {
             after_first_data: false,
             budget: 0,
             recv_err_w: 0,
+            send_err_w: 0,
             sched_w: [1, 0, 0, 0, 0],
             sched_table: [0, US, 20 * US, 300 * US, 2 * MS],
             stall_w: 0,
@@ -591,6 +594,14 @@ impl Inner {
         if data.len() > 65507 {
             self.emit(Ev::SendErr { actor, ep, kind: io::ErrorKind::InvalidInput, data: Arc::from(data), dst: to });
             return Err(io::Error::new(io::ErrorKind::InvalidInput, "message too long"));
+        }
+        if self.cfg.send_err_w > 0 && matches!(actor, Actor::Task(_)) && rfc::is_data(data) && self.faults_allowed() {
+            let w = [1000 - self.cfg.send_err_w.min(999), self.cfg.send_err_w];
+            if self.choices.choose("send.err", &w) == 1 {
+                self.use_budget("send-err");
+                self.emit(Ev::SendErr { actor, ep, kind: io::ErrorKind::Other, data: Arc::from(data), dst: Some(dst) });
+                return Err(io::Error::new(io::ErrorKind::Other, "injected ENOBUFS"));
+            }
         }
         let src = self.visible_src(ep);
         if src.is_ipv6() != dst.is_ipv6() {
